@@ -60,7 +60,10 @@ func (b *CslgBox) Type() string {
 // Size - calculated size of box
 func (b *CslgBox) Size() uint64 {
 	// full Box + 5 * 4 + version * 5*4
-	return uint64(boxHeaderSize + 4 + 20 + 20*b.Version)
+	if b.Version == 0 {
+		return uint64(boxHeaderSize + 4 + 20)
+	}
+	return uint64(boxHeaderSize + 4 + 40) // 64-bit fields for all other versions
 }
 
 // Encode - write box to w
